@@ -230,6 +230,22 @@ def finish(res, level, level_rule, assumptions):
         cov["verdicts_exercised"] = agg
         if any(agg.get(x, 0) == 0 for x in ("P", "C", "E")) and not res.violations:
             raise ToolError("vacuous run: the replayed vectors of %s did not cover all three verdicts: %s" % (res.prop, agg))
+    try:
+        _p, sm = families.seeds_file()
+        acts = sm.get("abstract_states_per_action", {})
+        cov["skeleton"] = {"abstract_states": sm.get("abstract_states"), "abstract_states_per_grammar_element": acts,
+                           "note": "every abstract state is a seed of the BYTE family (all 256 byte values fed from it)"}
+        missing = [a for a in ("LeadingEmptyLine", "MethodByte", "MethodEnd", "DelimSpaces", "TargetByte", "TargetEnd", "VersionByte",
+                               "ReqLineEnd", "RespSpace", "CodeDigit", "AfterCode", "ReasonByte", "ReasonEnd", "HdrLineStart", "HdrNameByte",
+                               "HdrColon", "HdrNameWs", "HdrOws", "HdrEmptyValueEol", "HdrValueByte", "HdrValueEol", "FoldDecision",
+                               "StoreHeader", "TooMany", "IgnoreByte", "IgnoreEol", "HeadEnd", "Reject", "ChunkDigit", "ChunkLws",
+                               "ChunkExtStart", "ChunkExtByte", "ChunkCr", "ChunkEnd") if acts and acts.get(a, 0) == 0]
+        if missing:
+            raise ToolError("vacuous skeleton: grammar elements never exercised: %s" % missing)
+    except ToolError:
+        raise
+    except Exception as e:
+        res.notes.append("skeleton coverage unavailable: %s" % e)
     cov.update(res.extra)
     write_evidence(res.prop, res.tier, res.seed, level, cov, wall, len(new), assumptions + res.assumptions)
     if res.drift:
